@@ -28,7 +28,11 @@ CASES = [
     ("t2-key-drops-instance", "mutant", C, "        getattr(index, \"_uid\", id(index)),\n", "", "C05.ISO"),
     ("t2-hit-mutated", "mutant", C, "                    hit.metrics[\"cache_used\"] = True\n", "                    hit.metrics[\"cache_used\"] = True\n                    hit.retrieved = list(hit.retrieved)[:k_retrieval]\n", "C05.ALIAS"),
     ("t1-accumulator-aliases-cached-list", "mutant", T, "            if deltas_for_gid:\n                all_deltas.extend(deltas_for_gid)\n            total_pops += m[\"pops\"]\n", "            if deltas_for_gid:\n                if not all_deltas:\n                    all_deltas = deltas_for_gid\n                else:\n                    all_deltas.extend(deltas_for_gid)\n            total_pops += m[\"pops\"]\n", "C05.ALIAS"),
+    ("apply-deltas-skips-unchanged-edge", "mutant", G, "                g.edges[eid] = Edge(\n                    id=eid,\n                    src=d[\"src\"],\n                    dst=d[\"dst\"],\n                    weight=float(d[\"weight\"]),\n                    rel=d.get(\"rel\", \"associates\"),\n                )\n                edits += 1\n",
+     "                _e = Edge(\n                    id=eid,\n                    src=d[\"src\"],\n                    dst=d[\"dst\"],\n                    weight=float(d[\"weight\"]),\n                    rel=d.get(\"rel\", \"associates\"),\n                )\n                if g.edges.get(eid) == _e:\n                    continue\n                g.edges[eid] = _e\n                edits += 1\n", "C05.VER"),
+    ("apply-deltas-counts-only-new-nodes", "mutant", G, "                g.nodes[nid] = g.nodes.get(nid) or Node(id=nid, label=d.get(\"label\", nid))\n                edits += 1\n", "                if nid not in g.nodes:\n                    g.nodes[nid] = Node(id=nid, label=d.get(\"label\", nid))\n                    edits += 1\n", "C05.VER"),
     # twins
+    ("apply-deltas-extra-noop-loop", "twin", G, [("        edits = 0\n        for d in deltas:\n", "        edits = 0\n        for d in deltas:\n            pass\n        for d in deltas:\n")], None, None),
     ("t2-key-helper-local", "twin", C, "        \"owner\": _owner_for_query(ctx, cfg_t2),\n", "        \"owner\": _owner_for_query(ctx, cfg_t2),\n        \"owner_again\": _owner_for_query(ctx, cfg_t2),\n", None),
     ("t1-copy-before-extend", "twin", T, "            if deltas_for_gid:\n                all_deltas.extend(deltas_for_gid)\n            total_pops += m[\"pops\"]\n", "            if deltas_for_gid:\n                all_deltas.extend(list(deltas_for_gid))\n            total_pops += m[\"pops\"]\n", None),
 ]
